@@ -256,7 +256,8 @@ class Session:
             kw["monitors"] = monitors
         if directives:
             kw["directives"] = directives
-        tsave_arg = tsave if isinstance(tsave, list) else list(tsave)     # the caller's own list object is passed through
+        # the caller's own object is passed through: a list, a tuple or a numpy array ("array/list of time to save")
+        tsave_arg = tsave if isinstance(tsave, (list, tuple, np.ndarray)) else list(tsave)
         tsave = list(intent["tsave"]) if intent is not None else list(tsave)
         # what the caller asked for: `intent` when the script shares (possibly already written-to) objects between calls
         stop_given = dict(intent["stop"]) if intent is not None and intent.get("stop") is not None else (dict(stop) if stop is not None else None)
